@@ -26,6 +26,9 @@ ASSUMPTIONS = [
     "the battery is generated once per run from VERIF_SEED; every child renders the same battery in its own order, a third of the cases twice",
 ]
 
+# characters that compatibility / canonical normalisation or case folding would identify with each other
+CONFUSABLE = "2\u00b2fi\ufb01A\uff21\u00e9e\u0301\u212b\u00c5\u00e5aK\u212a k"
+
 NAMES = ["jquery", "bootstrap", "d3", "leaflet", "react", "vue", "katex", "plotly", "ace", "zeta", "alpha", "mid"]
 
 
@@ -48,7 +51,7 @@ def dep():
 def payload():
     return st.lists(
         st.one_of(
-            st.builds(lambda s: {"k": "text", "s": s}, st.one_of(st.sampled_from(["a", "b", "ab", "ba", "abc", "", "x<y"]), st.text(alphabet="ab<", max_size=4))),
+            st.builds(lambda s: {"k": "text", "s": s}, st.one_of(st.sampled_from(["a", "b", "ab", "ba", "abc", "", "x<y"]), st.text(alphabet="ab<", max_size=4), st.text(alphabet=CONFUSABLE, min_size=1, max_size=3))),
             st.sampled_from([{"k": "html", "s": "<meta name=a>"}, {"k": "tag", "name": "title", "ws": True, "attrs": [], "kids": [{"k": "text", "s": "T"}]}]),
         ),
         min_size=1,
@@ -60,7 +63,15 @@ def battery_case():
     headc = st.builds(lambda p: {"k": "headc", "kids": p}, payload())
     text = st.builds(lambda s: {"k": "text", "s": s}, gen.safe_text(0, 4))
     leaf = gen.opaque(st.one_of(dep(), dep(), dep(), headc, text))
-    attrs = st.lists(st.tuples(st.sampled_from(["id", "class", "data-a", "data-b", "title", "lang", "style", "role"]), gen.safe_text(0, 3)).map(list), max_size=6, unique_by=lambda p: p[0])
+    attrs = st.lists(
+        st.one_of(
+            st.tuples(st.sampled_from(["id", "data-a", "data-b", "title", "lang", "role"]), gen.safe_text(0, 3)).map(list),
+            st.tuples(st.just("class"), st.sampled_from(["a b c d e", "e d c b a", "x a y b z", "solo"])).map(list),
+            st.tuples(st.just("style"), st.sampled_from(["k:v;", "a:b; c:d;"])).map(list),
+        ),
+        max_size=6,
+        unique_by=lambda p: p[0],
+    )
 
     def tag(ch):
         return st.builds(lambda n, ws, a, k: {"k": "tag", "name": n, "ws": ws, "attrs": a, "kids": k}, st.sampled_from(["div", "span", "p", "ul"]), st.booleans(), attrs, st.lists(ch, min_size=1, max_size=5))
@@ -72,6 +83,17 @@ def battery_case():
             "roots": st.lists(st.one_of(tag(n), tag(n), leaf), min_size=1, max_size=4),
             "kw": st.lists(st.tuples(st.sampled_from(["lang", "class_", "data_z"]), gen.safe_text(1, 3)).map(list), max_size=2, unique_by=lambda p: p[0]),
             "payloads": st.lists(payload(), max_size=2),
+            "ops": st.lists(
+                st.one_of(
+                    st.tuples(st.just("add_class"), st.integers(0, 5), st.sampled_from(["a", "b", "c d", "e"]), st.booleans()).map(list),
+                    st.tuples(st.just("remove_class"), st.integers(0, 5), st.sampled_from(["a", "b", "a b", "c d e", " e "])).map(list),
+                    st.tuples(st.just("add_style"), st.integers(0, 5), st.sampled_from(["x:y;", "color:red;"]), st.booleans()).map(list),
+                    st.tuples(st.just("update"), st.integers(0, 5), st.lists(st.tuples(st.sampled_from(["class", "class_", "data_k", "id"]), st.sampled_from(["v1 v2 v3", "q", "z y x w"])).map(list), max_size=3)).map(list),
+                    st.tuples(st.just("append"), st.integers(0, 5), gen.safe_text(0, 3)).map(list),
+                ),
+                max_size=4,
+            ),
+            "css": st.lists(st.tuples(st.sampled_from(["font_size", "backgroundColor", "margin_top", "zIndex", "color"]), st.sampled_from(["1px", "red", 3, None])).map(list), max_size=4, unique_by=lambda p: p[0]),
         }
     )
 
@@ -181,8 +203,25 @@ def run_processes(ctx):
 # ---------------------------------------------------------------- head_content names
 
 
+SWAP = {"2": "\u00b2", "\u00b2": "2", "A": "\uff21", "\uff21": "A", "\u00e9": "e\u0301", "\u212b": "\u00c5", "\u00c5": "\u212b", "K": "\u212a", "\u212a": "K", "\ufb01": "fi", "a": "\uff41", "b": "B"}
+
+
+def confuse(p):
+    """q = p with the first swappable character replaced by a compatibility-equivalent / case variant"""
+    out, done = [], False
+    for n in p:
+        if not done and n["k"] == "text":
+            for i, c in enumerate(n["s"]):
+                if c in SWAP:
+                    n = dict(n, s=n["s"][:i] + SWAP[c] + n["s"][i + 1 :])
+                    done = True
+                    break
+        out.append(n)
+    return out
+
+
 def names_case():
-    return st.fixed_dictionaries({"p": payload(), "q": payload(), "same": st.booleans()})
+    return st.fixed_dictionaries({"p": payload(), "q": payload(), "same": st.booleans(), "confuse": st.booleans()})
 
 
 def body_names(case, note):
@@ -191,6 +230,8 @@ def body_names(case, note):
     p, q = case["p"], case["q"]
     if case["same"]:
         q = p
+    elif case.get("confuse"):
+        q = confuse(p)
     rp = h.TagList(*[build(x) for x in p]).get_html_string()
     rq = h.TagList(*[build(x) for x in q]).get_html_string()
     hp, hq = h.head_content(*[build(x) for x in p]), h.head_content(*[build(x) for x in q])
@@ -203,8 +244,11 @@ def body_names(case, note):
     else:
         check(heads == [rp, rq], "different head contents were merged or reordered", [rp, rq], heads)
     differently_built = rp == rq and core.canon(p) != core.canon(q)
-    close = rp != rq and (len(rp) == len(rq) or sorted(rp) == sorted(rq))
-    note(differently_built or close, "equal-content-built-differently" if differently_built else "", "anagram-or-same-length" if close else "", "identical" if core.canon(p) == core.canon(q) else "")
+    import unicodedata
+
+    confus = rp != rq and (unicodedata.normalize("NFKC", rp).casefold() == unicodedata.normalize("NFKC", rq).casefold())
+    close = rp != rq and (len(rp) == len(rq) or sorted(rp) == sorted(rq) or confus)
+    note(differently_built or close, "equal-content-built-differently" if differently_built else "", "anagram-or-same-length" if close else "", "identical" if core.canon(p) == core.canon(q) else "", "unicode-confusable" if confus else "")
 
 
 RULE = (
@@ -216,5 +260,5 @@ RULE = (
 
 CLAUSES = [
     Clause("processes", body_replay, source="custom", custom=run_processes, rule="see RULE"),
-    Clause("names", body_names, strategy=names_case, quick=1500, thorough=20000, shards_quick=2, required=("equal-content-built-differently", "anagram-or-same-length"), rule="see RULE"),
+    Clause("names", body_names, strategy=names_case, quick=1500, thorough=20000, shards_quick=2, required=("equal-content-built-differently", "anagram-or-same-length", "unicode-confusable"), rule="see RULE"),
 ]
